@@ -695,10 +695,65 @@ impl Core {
     }
 
     fn make_forwarder(context: Arc<Context>) -> Box<dyn Forwarder> {
+        #[cfg(trusttunnel_verif)]
+        if let Some(f) = crate::verif::tunnel::forwarder_override() {
+            return f;
+        }
         match &context.settings.forward_protocol {
             ForwardProtocolSettings::Direct(_) => Box::new(DirectForwarder::new(context)),
             ForwardProtocolSettings::Socks5(_) => Box::new(Socks5Forwarder::new(context)),
         }
+    }
+}
+
+#[cfg(trusttunnel_verif)]
+impl Core {
+    pub(crate) fn verif_context(&self) -> Arc<Context> {
+        self.context.clone()
+    }
+
+    pub(crate) async fn verif_on_tunnel_request(
+        context: Arc<Context>,
+        protocol: tls_demultiplexer::Protocol,
+        codec: Box<dyn HttpCodec>,
+        server_name: String,
+        sni_auth_creds: Option<String>,
+        tunnel_id: log_utils::IdChain<u64>,
+    ) {
+        Self::on_tunnel_request(
+            context,
+            protocol,
+            codec,
+            server_name,
+            sni_auth_creds,
+            tunnel_id,
+        )
+        .await
+    }
+
+    pub(crate) fn verif_make_tcp_http_codec<IO>(
+        protocol: tls_demultiplexer::Protocol,
+        core_settings: Arc<Settings>,
+        io: IO,
+        log_id: log_utils::IdChain<u64>,
+    ) -> io::Result<Box<dyn HttpCodec>>
+    where
+        IO: 'static + AsyncRead + AsyncWrite + Unpin + Send + PeerAddr,
+    {
+        Self::make_tcp_http_codec(protocol, core_settings, io, log_id)
+    }
+
+    pub(crate) fn verif_evaluate_connection_rules(
+        context: &Arc<Context>,
+        client_ip: Option<std::net::IpAddr>,
+        client_random: Option<&[u8]>,
+    ) -> Result<(), String> {
+        Self::evaluate_connection_rules(
+            context,
+            client_ip,
+            client_random,
+            &log_utils::IdChain::empty(),
+        )
     }
 }
 
